@@ -1462,6 +1462,10 @@ impl Cluster {
                     }
                     out.push(json!({"a":"Crash","n":n}));
                     out.push(json!({"a":"Stop","n":n}));
+                    let io_held = h.se.l.hold.load(Ordering::SeqCst);
+                    let ap_held = h.sm.hold.load(Ordering::SeqCst);
+                    out.push(json!({"a":"HoldIo","n":n,"on": if io_held {0} else {1}}));
+                    out.push(json!({"a":"HoldApply","n":n,"on": if ap_held {0} else {1}}));
                 }
             }
         }
